@@ -41,7 +41,7 @@ def gen_positions(res, games, plies, sparse, corpus, null=0, with_games=False):
     pat = max(40, sparse // 5)
     # constructive patterns: castling (all king/rook files, hazards on the paths, rook shielded on the back rank),
     # en passant (pins and discoveries on rank/diagonals/file, check by the pushed pawn), promotions next to castling rooks
-    reqs += ["#", f"gpattern {seed + 5} 0 {pat} 1", f"gpattern {seed + 6} 0 {pat // 2} 0", f"gpattern {seed + 7} 1 {pat} 0",
+    reqs += ["#", f"gpattern {seed + 5} 0 {pat} 1", f"gpattern {seed + 6} 0 {pat // 2} 0", f"gpattern {seed + 7} 1 {pat * 3} 0",
              f"gpattern {seed + 8} 2 {pat // 2} 1"]
     out = run_driver([q for q in reqs if q != "#"])
     fens = corpus_fens(corpus, rnd)
@@ -792,11 +792,39 @@ def overlay_fen(parts, rnd):
     return " ".join([parts[0] + "/" + "/".join(["8"] * 24) + "/" + cells_field(over)] + parts[1:])
 
 
+def bogus_right_fen(parts, rnd):
+    """a castling letter (file notation) naming a square of the king's home rank that holds an ENEMY rook, a non-rook, or nothing"""
+    cells = board_cells(parts[0])
+    if len(cells) != 64 or len(parts) < 6:
+        return None
+    sides = [c for c in "wb" if ("K" if c == "w" else "k") in cells[(56 if c == "w" else 0):(64 if c == "w" else 8)]]
+    if not sides:
+        return None
+    y = rnd.choice(sides)
+    base = 56 if y == "w" else 0
+    free = [i for i in range(base, base + 8) if cells[i] is None]
+    if not free:
+        return None
+    i = rnd.choice(free)
+    what = rnd.random()
+    if what < 0.6:
+        cells[i] = "r" if y == "w" else "R"          # enemy rook on the named square
+    elif what < 0.8:
+        cells[i] = rnd.choice("NBQ") if y == "w" else rnd.choice("nbq")   # own non-rook
+    letter = "abcdefgh"[i - base]
+    return " ".join([cells_field(cells), y, letter.upper() if y == "w" else letter, "-"] + parts[4:])
+
+
 def mutate_fen(f, rnd):
     if len(f) < 2:
         return f + "8"
     parts = f.split(" ")
-    k = rnd.randrange(18)
+    k = rnd.randrange(20)
+    if k >= 18:
+        o = bogus_right_fen(parts, rnd)
+        if o is not None:
+            return o
+        k = 8
     if k >= 16:
         o = overlay_fen(parts, rnd)
         if o is not None:
